@@ -64,10 +64,10 @@ def eligible(rec) -> List[str]:
         return []
     out = []
     for name, sd in rec.get("subs", {}).items():
-        if any(p[0] != "val" for p in sd["params"]):
+        if any(p[0] not in ("val", "abi") for p in sd["params"]):
             continue
         g = call_graph(rec)
-        if any(any(p[0] != "val" for p in rec["subs"][c]["params"]) for c in g[name]):
+        if any(any(p[0] not in ("val", "abi") for p in rec["subs"][c]["params"]) for c in g[name]):
             continue
         out.append(name)
     return out
@@ -119,7 +119,7 @@ class HavocRef(RefEval):
         self.path.effects.append(("call", e[1]) + tuple(args))
         if sd["ret"] == "n":
             return None
-        return make_input(self.w, "hv%d.ret" % self.ncalls, sd["ret"])
+        return make_input(self.w, "hv%d.ret" % self.ncalls, "u" if sd["ret"] == "a" else sd["ret"])
 
 
 def make_input(w, name: str, ty: str):
@@ -154,7 +154,7 @@ def teal_routine_runner(prog, rec, cfg, eng, bounds, routine: str, label: str, l
                     vm.scratch.clear()
                     vm.havoc_gen = state["k"]
                 if csd["ret"] != "n":
-                    vm.push(make_input(vm.w, "hv%d.ret" % state["k"], csd["ret"]))
+                    vm.push(make_input(vm.w, "hv%d.ret" % state["k"], "u" if csd["ret"] == "a" else csd["ret"]))
 
             vm = SymAVM(prog, cfg, bounds, entry=prog.labels[label], entry_label=label, stop_at=sentinel,
                         havoc_callsub=havoc)
